@@ -3,17 +3,23 @@ import PysphVerif.Lemmas.NnpsTree
 import PysphVerif.Lemmas.NnpsHash
 import PysphVerif.Lemmas.NnpsCellIdx
 import PysphVerif.Lemmas.NnpsSubgrid
+import PysphVerif.Lemmas.NnpsMorton
 import Mathlib.Data.Rat.Floor
 /-!
 # C01 — every neighbour-search algorithm returns exactly the true neighbour set
 
-Property theorems only (helper lemmas live in `Lemmas/Nnps.lean`).  They are
+Property theorems only (helper lemmas live in `Lemmas/Nnps*.lean`).  They are
 about `Model/Nnps.lean`, which transcribes the shared front end of
 `nnps_base.pyx` (cell size, acceptance test, brute force), the Grid family's
 3×3×3 stencil, the linked-list storage of `LinkedListNNPS`, the neighbour
-cache and the pruning test of the octree query; the model is tied to the 12
-compiled classes by differential execution on dyadic-grid inputs
-(`harness/c01.py`).
+cache and the pruning test of the octree query, and about
+`Model/NnpsStore.lean`, which transcribes the per-class storage (flattened
+cell index, BoxSort's `std::map`, DictBoxSort's dict, the chained hash table of
+`spatial_hash.h`, CellIndexing's packed sorted keys, the sub-cells / mask /
+per-box cut of `ExtendedSpatialHashNNPS`, the Morton key of `z_order.h`); the
+model is tied to the 12 compiled classes by differential execution on
+dyadic-grid inputs (`harness/c01.py`), which also dumps the real octrees and has
+the driver check the hypotheses of `tree_query_exact` on them.
 
 All geometric statements hold over every linearly ordered field, every point
 cloud, every radius scale `rs ≥ 0`, every origin of the cell grid; storage
@@ -276,6 +282,25 @@ theorem cell_in_range (x xmin xmax c : α) (hc : 0 < c) (h1 : xmin ≤ x)
   · refine lt_of_lt_of_le ?_ (le_max_left _ _)
     rw [h2, sub_self, zero_div, Int.floor_zero]
     exact Int.zero_lt_one
+
+/-- The hypothesis `hvalid` of the LinkedList / BoxSort theorems follows from the bounds: with the
+grid origin `lo` and the box `(ncx, ncy, ncz) = max 1 ⌈(hi − lo)/c⌉` per axis (what
+`_get_number_of_cells` computes), every particle with `lo ≤ p < hi` per axis (or on a degenerate
+axis `lo = p`) is binned into a valid cell. -/
+theorem valid_of_bounds (c : α) (lo hi p : Pt α) (hc : 0 < c)
+    (hx : lo.x ≤ p.x ∧ (p.x < hi.x ∨ p.x = lo.x)) (hy : lo.y ≤ p.y ∧ (p.y < hi.y ∨ p.y = lo.y))
+    (hz : lo.z ≤ p.z ∧ (p.z < hi.z ∨ p.z = lo.z)) :
+    isValidCell ((max 1 ⌈(hi.x - lo.x) / c⌉).toNat, (max 1 ⌈(hi.y - lo.y) / c⌉).toNat,
+      (max 1 ⌈(hi.z - lo.z) / c⌉).toNat) (cell3 Int.floor c lo p) = true := by
+  rw [isValidCell_iff]
+  simp only [cell3, cellOf]
+  obtain ⟨x0, x1⟩ := cell_in_range p.x lo.x hi.x c hc hx.1 hx.2
+  obtain ⟨y0, y1⟩ := cell_in_range p.y lo.y hi.y c hc hy.1 hy.2
+  obtain ⟨z0, z1⟩ := cell_in_range p.z lo.z hi.z c hc hz.1 hz.2
+  have e : ∀ n : Int, ((max 1 n).toNat : Int) = max 1 n := fun n =>
+    Int.toNat_of_nonneg (le_trans Int.one_nonneg (le_max_left _ _))
+  rw [e, e, e]
+  exact ⟨x0, x1, y0, y1, z0, z1⟩
 
 private theorem cellAt_valid (c : α) (o : Pt α) (src : List (Pt α))
     (P : Cell → Bool) (h : ∀ p ∈ src, P (cell3 Int.floor c o p) = true) :
@@ -572,7 +597,42 @@ theorem tree_query_exact (rs : α) (src : List (Pt α)) (q : Pt α) (t : Nnps.Tr
     (fun j hj ha => cands_cover rs src q hrs hq hpos t hinv j (hall j hj) ha)
     (hnd.sublist (cands_sublist rs q t))
 
+/-- The form the check uses on every run: the driver evaluates `Tree.invB` (exact rational
+arithmetic on the doubles of the REAL tree dumped from `pysph.base.octree`), `Nodup` and
+coverage of the leaf index lists; when they hold the query on that very tree is exact. -/
+theorem tree_query_exact_checked (rs : α) (src : List (Pt α)) (q : Pt α) (t : Nnps.Tree α)
+    (hrs : 0 ≤ rs) (hq : 0 ≤ q.h) (hpos : ∀ p ∈ src, 0 ≤ p.h)
+    (hinv : Nnps.Tree.invB src t = true) (hnd : (Nnps.Tree.pids t).Nodup)
+    (hall : ∀ j, j < src.length → j ∈ Nnps.Tree.pids t) :
+    (treeNbrs rs src q t).Perm (bruteForce rs src q) ∧ (treeNbrs rs src q t).Nodup ∧
+      ∀ j ∈ treeNbrs rs src q t, j < src.length :=
+  tree_query_exact rs src q t hrs hq hpos (invB_sound src t hinv) hnd hall
+
 end tree
+
+/-! ## Morton keys (`z_order.h`) -/
+
+/-- Bit `3b + r` of `get_key(i, j, k)` is bit `b` of coordinate `r` (`r = 0, 1, 2` for
+`i, j, k`), for coordinates below 2^21. -/
+theorem morton_key_bits (i j k : Nat) (hi : i < 2 ^ 21) (hj : j < 2 ^ 21) (hk : k < 2 ^ 21)
+    (b : Nat) (hb : b < 21) :
+    (mortonKey i j k).testBit (3 * b) = i.testBit b ∧
+    (mortonKey i j k).testBit (3 * b + 1) = j.testBit b ∧
+    (mortonKey i j k).testBit (3 * b + 2) = k.testBit b :=
+  key_bits i j k hi hj hk b hb
+
+/-- **key_inj.**  `get_key` is injective on cell coordinates below 2^21: two cells share a
+Morton key only if they are the same cell. -/
+theorem key_inj (i j k i' j' k' : Nat) (hi : i < 2 ^ 21) (hj : j < 2 ^ 21) (hk : k < 2 ^ 21)
+    (hi' : i' < 2 ^ 21) (hj' : j' < 2 ^ 21) (hk' : k' < 2 ^ 21)
+    (h : mortonKey i j k = mortonKey i' j' k') : i = i' ∧ j = j' ∧ k = k' :=
+  mortonKey_inj i j k i' j' k' hi hj hk hi' hj' hk' h
+
+/-- non-vacuity: the largest coordinate fills exactly the bits `0, 3, …, 60`; three of them fill
+63 bits; a small key -/
+example : mortonSpread (2 ^ 21 - 1) = 0x1249249249249249 ∧
+    mortonKey (2 ^ 21 - 1) (2 ^ 21 - 1) (2 ^ 21 - 1) = 2 ^ 63 - 1 ∧
+    mortonKey 3 1 2 = 43 := by decide +kernel
 
 /-! ## non-vacuity / executable examples (over ℚ, core `Rat.floor`) -/
 
@@ -602,5 +662,59 @@ example : (LL.build [(0, 3), (1, 5), (2, 3), (3, 3)]).traverse 4 3 = [3, 2, 0] :
 example :
     (Cache.get (fun d => [d, d + 1]) (Cache.run (fun d => [d, d + 1]) Cache.reset
       [(1, 2), (0, 0), (1, 1)]) 1).2 = [1, 2] := by decide +kernel
+
+/-- the per-class storage models on one cloud (five sources, the fourth far away, the third in
+an adjacent cell but beyond the cut-off): hypotheses of the `nbrs_exact_<Class>` theorems hold,
+every class visits the same four candidates and returns the brute-force set -/
+example :
+    let src : List (Pt Rat) :=
+      [⟨0, 0, 0, 1/4⟩, ⟨1/4, 0, 0, 1/4⟩, ⟨3/4, 1/2, 0, 1/4⟩, ⟨2, 2, 0, 1/4⟩, ⟨1/4, 1/4, 0, 1/8⟩]
+    let o : Pt Rat := ⟨-1/100, -1/100, 0, 0⟩
+    let q : Pt Rat := ⟨1/4, 0, 0, 1/4⟩
+    let cellAt := cellAtOf Rat.floor (1/2 : Rat) o src
+    let cq := cell3 Rat.floor (1/2 : Rat) o q
+    let nc : Nat × Nat × Nat := (5, 5, 1)
+    bruteForce (2 : Rat) src q = [0, 1, 4] ∧
+    (List.range 5).all (fun j => isValidCell nc (cellAt j)) = true ∧
+    llCands nc 25 5 cellAt cq = [4, 1, 0, 2] ∧
+    boxCands nc (occupied ((List.range 5).map (fun j => flattenCell nc (cellAt j)))) 5 cellAt cq =
+      [4, 1, 0, 2] ∧
+    shCands (spatialHash 1) 5 cellAt (hAtOf src) cq = [0, 1, 4, 2] ∧
+    shCands (spatialHash 7) 5 cellAt (hAtOf src) cq = [0, 1, 4, 2] ∧
+    dictCands (dictBuild (dictItems 0 2 (fun _ => (7, 7, 7)) ++ dictItems 1 5 cellAt)) 1 cq =
+      [0, 1, 4, 2] ∧
+    (List.range 5).all (fun j => ciFits 3 3 3 j (cellAt j).toNat3) = true ∧
+    (neighborBoxesZ cq).all (fun b => ciFits 3 3 3 0 b.toNat3) = true ∧
+    ciCands 3 3 3 5 cellAt cq = [0, 1, 4, 2] ∧
+    nbrsOf (2 : Rat) src q (ciCands 3 3 3 5 cellAt cq) = [0, 1, 4] := by
+  decide +kernel
+
+/-- the sub-grid model (H = 2, sub-cell 1/4, table size 7) on the same cloud: four boxes pass the
+per-box cut, the result is the brute-force set -/
+example :
+    let src : List (Pt Rat) :=
+      [⟨0, 0, 0, 1/4⟩, ⟨1/4, 0, 0, 1/4⟩, ⟨3/4, 1/2, 0, 1/4⟩, ⟨2, 2, 0, 1/4⟩, ⟨1/4, 1/4, 0, 1/8⟩]
+    let o : Pt Rat := ⟨-1/100, -1/100, 0, 0⟩
+    let q : Pt Rat := ⟨1/4, 0, 0, 1/4⟩
+    let cands := eshCands Rat.ceil (spatialHash 7) 2 (2 : Rat) (1/4) 5
+      (cellAtOf Rat.floor (1/4 : Rat) o src) (hAtOf src) q.h (cell3 Rat.floor (1/4 : Rat) o q)
+    cands = [0, 1, 4, 2] ∧ nbrsOf (2 : Rat) src q cands = [0, 1, 4] := by
+  decide +kernel
+
+/-- packed keys: `I = 3, J = 3, K = 3`, particle 5 in cell (2, 7, 1) -/
+example : ciKey 3 3 3 5 (2, 7, 1) = 5 + 8 * 2 + 64 * 7 + 512 * 1 ∧
+    ciFits 3 3 3 5 (2, 7, 1) = true ∧ ciId 3 (ciKey 3 3 3 5 (2, 7, 1)) = 5 ∧
+    ciCell 3 3 3 (ciKey 3 3 3 5 (2, 7, 1)) = (2, 7, 1) ∧
+    ciFits 3 3 3 5 (8, 7, 1) = false := by decide +kernel
+
+/-- the executable invariant check accepts the two-leaf tree above and rejects it when the first
+leaf's cube is too short for particle 1 -/
+example :
+    let src : List (Pt Rat) := [⟨0, 0, 0, 1/4⟩, ⟨1/4, 0, 0, 1/4⟩, ⟨4, 4, 4, 1/4⟩]
+    Nnps.Tree.invB src (Nnps.Tree.node ⟨0, 0, 0, 1/4⟩ 4
+      [Nnps.Tree.leaf ⟨0, 0, 0, 1/4⟩ (1/4) [0, 1], Nnps.Tree.leaf ⟨4, 4, 4, 1/4⟩ 0 [2]]) = true ∧
+    Nnps.Tree.invB src (Nnps.Tree.node ⟨0, 0, 0, 1/4⟩ 4
+      [Nnps.Tree.leaf ⟨0, 0, 0, 1/4⟩ (1/8) [0, 1], Nnps.Tree.leaf ⟨4, 4, 4, 1/4⟩ 0 [2]]) = false := by
+  decide +kernel
 
 end PysphVerif.C01
